@@ -10,7 +10,7 @@ from fractions import Fraction
 sys.set_int_max_str_digits(0)
 import aulib
 from p_c11 import (intermediate_overflow, CT, FLT_T, FMAX, INT_T, cxx_mag, exact_info, gen_mags, parse_hexfloat, ulp_ok, FEMIN, FPREC)
-from vlib import AU_INC, Driver, cxx, finish, kv, pmap, prove, rng_for, run, workdir, ty_hi
+from vlib import UBSAN_ENV, AU_INC, Driver, cxx, finish, kv, pmap, prove, rng_for, run, workdir, ty_hi
 
 PROP = "C16"
 ASSUME = [
@@ -118,38 +118,74 @@ def main(tier, seed):
     for m in mags:
         tm = rng.choice(targets)
         cases.append({"c": f"au::make_constant(VU{{}} * {cxx_mag(m)})", "u": f"decltype(VU{{}} * {cxx_mag(tm)})", "ratio": msub(m, tm), "lib": None})
-    # composition probes (values unchanged, only units move)
+    # composition probes (values unchanged, only units move): every wrapper kind x both operand orders x * and /, for a
+    # seed-chosen library constant and a generated one, numbers of every rep at their limits; each probe is judged by name
+    cname = rng.choice([n for n, _ in libc])
+    REPV = [("int8_t", "-128"), ("int8_t", "127"), ("uint8_t", "255"), ("int16_t", "-32768"), ("uint16_t", "65535"), ("int32_t", "2147483647"),
+            ("uint32_t", "4294967295u"), ("int64_t", "(-9223372036854775807ll - 1)"), ("uint64_t", "18446744073709551615ull"),
+            ("float", "3.4028234664e38f"), ("float", "-0.0f"), ("double", "1.7976931348623157e308"), ("double", "4.9406564584124654e-324"),
+            ("long double", "1.18973149535723176502e4932L"), ("int", "3"), ("double", "2.5")]
+    probes = []
+    for ci, cexpr in enumerate([f"au::{cname}", "au::make_constant(au::Meters{} * au::mag<7>() / au::mag<3>())"]):
+        C = f"c{ci}"
+        CU = f"CU{ci}"
+        for ri, (rt, rv) in enumerate(REPV):
+            x = f"static_cast<{rt}>({rv})"
+            RR = f"decltype({x} * 1)" if rt in ("int8_t", "uint8_t", "int16_t", "uint16_t") else rt   # what the library's `x * 1`-style product yields is NOT assumed: compare with the rep it reports
+            probes.append((f"{cexpr}: ({rt}){rv} * C keeps the number and rep", f"same_num({x} * {C}, {x}, {CU}{{}}) && std::is_same<typename decltype({x} * {C})::Rep, {rt}>::value"))
+            probes.append((f"{cexpr}: C * ({rt}){rv} keeps the number and rep", f"same_num({C} * {x}, {x}, {CU}{{}}) && std::is_same<typename decltype({C} * {x})::Rep, {rt}>::value"))
+            probes.append((f"{cexpr}: Quantity<Meters,{rt}>({rv}) * C keeps the number", f"same_num(au::make_quantity<au::Meters>({x}) * {C}, {x}, au::Meters{{}} * {CU}{{}})"))
+            probes.append((f"{cexpr}: C * Quantity<Meters,{rt}>({rv}) keeps the number", f"same_num({C} * au::make_quantity<au::Meters>({x}), {x}, {CU}{{}} * au::Meters{{}})"))
+            probes.append((f"{cexpr}: Quantity<Meters,{rt}>({rv}) / C keeps the number", f"same_num(au::make_quantity<au::Meters>({x}) / {C}, {x}, au::Meters{{}} / {CU}{{}})"))
+            if rt in ("float", "double", "long double", "int"):
+                probes.append((f"{cexpr}: ({rt}){rv} / C keeps the number", f"same_num({x} / {C}, {x}, au::UnitInverseT<{CU}>{{}})"))
+        for nm, expr, unit in [
+                ("C * C", f"{C} * {C}", f"au::UnitProductT<{CU}, {CU}>"), ("C / C", f"{C} / {C}", "au::UnitProductT<>"),
+                ("C * mag<3>", f"{C} * au::mag<3>()", f"decltype({CU}{{}} * au::mag<3>())"), ("mag<3> * C", f"au::mag<3>() * {C}", f"decltype({CU}{{}} * au::mag<3>())"),
+                ("C / mag<5>", f"{C} / au::mag<5>()", f"decltype({CU}{{}} / au::mag<5>())"), ("mag<5> / C", f"au::mag<5>() / {C}", f"decltype(au::UnitInverseT<{CU}>{{}} * au::mag<5>())"),
+                ("pow<2>(C)", f"pow<2>({C})", f"au::UnitPowerT<{CU}, 2>"), ("pow<-1>(C)", f"pow<-1>({C})", f"au::UnitInverseT<{CU}>"),
+                ("root<2>(C)", f"root<2>({C})", f"au::UnitPowerT<{CU}, 1, 2>"),
+                ("C * make_constant(s)", f"{C} * au::make_constant(au::Seconds{{}})", f"au::UnitProductT<{CU}, au::Seconds>"),
+                ("make_constant(s) / C", f"au::make_constant(au::Seconds{{}}) / {C}", f"au::UnitQuotientT<au::Seconds, {CU}>"),
+                ("C * meter (singular)", f"{C} * au::meter", f"au::UnitProductT<{CU}, au::Meters>"), ("meter * C", f"au::meter * {C}", f"au::UnitProductT<au::Meters, {CU}>"),
+                ("C / second (singular)", f"{C} / au::second", f"au::UnitQuotientT<{CU}, au::Seconds>"), ("second / C", f"au::second / {C}", f"au::UnitQuotientT<au::Seconds, {CU}>")]:
+            probes.append((f"{cexpr}: unit of {nm}", f"std::is_same<UT({expr}), {unit}>::value"))
+        for nm, expr, unit in [("C * meters (maker)", f"({C} * au::meters)", f"{CU}{{}} * au::Meters{{}}"), ("meters * C", f"(au::meters * {C})", f"au::Meters{{}} * {CU}{{}}"),
+                               ("seconds / C", f"(au::seconds / {C})", f"au::Seconds{{}} / {CU}{{}}"), ("C / seconds", f"({C} / au::seconds)", f"{CU}{{}} / au::Seconds{{}}")]:
+            for rt, rv in (("uint8_t", "255"), ("int64_t", "9223372036854775807ll"), ("double", "-0.0")):
+                x = f"static_cast<{rt}>({rv})"
+                probes.append((f"{cexpr}: {nm} applied to ({rt}){rv} keeps the number", f"same_num({expr}({x}), {x}, {unit})"))
     compose_src = PRELUDE % (inc, os.path.join(aulib.HARNESS_INC, "serialize.hh")) + '''
-int main() {
-    constexpr auto c = au::SPEED_OF_LIGHT; using CU = au::AssociatedUnitT<std::decay_t<decltype(c)>>;
-    int bad = 0;
-    auto q1 = 3 * c; bad += !(q1.in(CU{}) == 3 && std::is_same<decltype(q1), au::Quantity<CU, int>>::value);
-    auto q2 = c * 2.5; bad += !(q2.in(CU{}) == 2.5 && std::is_same<decltype(q2), au::Quantity<CU, double>>::value);
-    auto q3 = au::meters(7) * c; bad += !(q3.in(au::Meters{} * CU{}) == 7);
-    auto q4 = au::meters(8.0) / c; bad += !(q4.in(au::Meters{} / CU{}) == 8.0);
-    auto q5 = 6 / c; bad += !(q5.in(au::UnitInverseT<CU>{}) == 6);
-    auto c2 = c * c; bad += !std::is_same<au::AssociatedUnitT<std::decay_t<decltype(c2)>>, au::UnitProductT<CU, CU>>::value;
-    auto c3 = c / c; bad += !std::is_same<au::AssociatedUnitT<std::decay_t<decltype(c3)>>, au::UnitProductT<>>::value;
-    auto c4 = c * au::mag<3>(); bad += !std::is_same<au::AssociatedUnitT<std::decay_t<decltype(c4)>>, decltype(CU{} * au::mag<3>())>::value;
-    auto c5 = au::mag<5>() / c; bad += !std::is_same<au::AssociatedUnitT<std::decay_t<decltype(c5)>>, decltype(au::UnitInverseT<CU>{} * au::mag<5>())>::value;
-    auto m1 = c * au::meters; bad += !(m1(4).in(CU{} * au::Meters{}) == 4);
-    auto m2 = au::seconds / c; bad += !(m2(9).in(au::Seconds{} / CU{}) == 9);
-    using au::pow; auto p2 = pow<2>(c); bad += !std::is_same<au::AssociatedUnitT<std::decay_t<decltype(p2)>>, au::UnitPowerT<CU, 2>>::value;
-    printf("COMPOSE bad=%d\\n", bad);
-    return 0;
+#include <cstring>
+#include "au/units/meters.hh"
+#include "au/units/seconds.hh"
+#define UT(...) au::AssociatedUnitT<std::decay_t<decltype(__VA_ARGS__)>>
+using au::pow; using au::root;
+// the stored number of q (read in the expected unit, which must be quantity-equivalent to q's unit) is bit-identical to x
+template <typename Q, typename X, typename U> bool same_num(Q q, X x, U u) {
+    static_assert(au::AreUnitsQuantityEquivalent<typename Q::Unit, UT(u)>::value, "composition produced another unit");
+    auto v = q.in(typename Q::Unit{});
+    if (!std::is_same<decltype(v), X>::value) return false;
+    return std::memcmp(&v, &x, std::is_same<X, long double>::value ? 10 : sizeof(X)) == 0;   // x87 long double: 10 value bytes + padding
 }
-'''
+int main() {
+''' + f"    constexpr auto c0 = au::{cname}; using CU0 = UT(c0);\n    constexpr auto c1 = au::make_constant(au::Meters{{}} * au::mag<7>() / au::mag<3>()); using CU1 = UT(c1);\n" + \
+        "".join(f'    printf("K {k} %d\\n", int({code}));\n' for k, (_, code) in enumerate(probes)) + "    return 0;\n}\n"
     cp = os.path.join(wd, "compose.cc")
     open(cp, "w").write(compose_src)
     rc, out = cxx(cp, os.path.join(wd, "compose"), san=True, opt="-O0")
+    stats_compose = {"probes": len(probes), "constant": cname}
     if rc != 0:
-        violations.append({"what": "constant composition program does not compile", "class": "compose-build", "no_input": True,
+        violations.append({"what": "constant composition program does not compile (a wrapper operation with a constant is missing, or produces another unit)",
+                           "class": "compose-build", "no_input": True,
                            "broken": "harness / wrapper_operations mix-ins", "rec": {"kind": "build", "errors": [l for l in out.split("\n") if "error" in l][:4]}})
     else:
-        o = run([os.path.join(wd, "compose")])[1]
-        if "COMPOSE bad=0" not in o:
-            violations.append({"what": f"multiplying/dividing by a constant changed a stored number or produced the wrong unit ({o.strip()})", "class": "compose",
-                               "rec": {"kind": "compose", "out": o.strip()}})
+        o = run([os.path.join(wd, "compose")], env=UBSAN_ENV)[1]
+        got = {int(l.split()[1]): l.split()[2] for l in o.split("\n") if l.startswith("K ")}
+        for k, (nm, code) in enumerate(probes):
+            if got.get(k) != "1":
+                violations.append({"what": f"composition with a constant changed the stored number / rep: {nm}", "class": "compose",
+                                   "rec": {"kind": "compose", "probe": nm, "code": code}})
     drv = Driver()
     req = []
     for c in cases:
@@ -171,7 +207,7 @@ int main() {
     configs = [("g++", "c++14"), ("clang++-14", ["c++14", "c++17", "c++20"][seed % 3])]
     nchunks = 16
     results = {}
-    stats = {"constants_library": len(libc), "cases": len(cases), "configs": [], "available_cells": 0, "unavailable_cells": 0, "neg_probes": 0,
+    stats = {"constants_library": len(libc), "cases": len(cases), "composition_probes": stats_compose, "configs": [], "available_cells": 0, "unavailable_cells": 0, "neg_probes": 0,
              "float_cells_checked": 0}
     for ci, (compiler, std) in enumerate(configs):
         cfg = f"{compiler} -std={std}"
